@@ -107,19 +107,18 @@ def mulErr (O : Oracles) (k : NumKind) (v factor : Rat) : Bool :=
   | some r => r != .ok
   | none => if factor ≤ 0 then true else !O.mulOfTol v factor
 
+/-- one optional numeric keyword: its bound must itself fit the declared type/format, then the check proper -/
+def optErr (typ fmt : String) (f : Rat → Bool) : Option Rat → Bool
+  | some m => if inRange typ fmt m then f m else true
+  | none => false
+
 /-- validator.go:874-952: `true` = at least one error. `typ`/`fmt` are the declared type and format
     ("" for schema validators). -/
 def numberErrTyped (O : Oracles) (b : SBase) (typ fmt : String) (k : NumKind) (v : Rat) : Bool :=
   !inRange typ fmt v
-  || (match b.multipleOf with
-      | some m => if inRange typ fmt m then mulErr O k v m else true
-      | none => false)
-  || (match b.maximum with
-      | some m => if inRange typ fmt m then nativeMax k v m b.exclMax else true
-      | none => false)
-  || (match b.minimum with
-      | some m => if inRange typ fmt m then nativeMin k v m b.exclMin else true
-      | none => false)
+  || optErr typ fmt (mulErr O k v) b.multipleOf
+  || optErr typ fmt (fun m => nativeMax k v m b.exclMax) b.maximum
+  || optErr typ fmt (fun m => nativeMin k v m b.exclMin) b.minimum
 
 /-- AgainstSchema with a typed numeric value (schema with type / numeric keywords only) -/
 def schemaTypedValid (O : Oracles) (b : SBase) (k : NumKind) (v : Rat) : Bool :=
@@ -133,10 +132,15 @@ def paramTypedValid (O : Oracles) (b : SBase) (typ : String) (k : NumKind) (v : 
   else !numberErrTyped O b typ b.format k v
 
 /-! specification for typed numeric data: the declared type and exact arithmetic -/
+/-- an optional keyword of the specification -/
+def optOK (f : Rat → Bool) : Option Rat → Bool
+  | some m => f m
+  | none => true
+
 def specTypedValid (types : List String) (b : SBase) (v : Rat) : Bool :=
   (types.isEmpty || types.contains "number" || (types.contains "integer" && v.isInt))
-  && (match b.maximum with | some m => !specMax v m b.exclMax | none => true)
-  && (match b.minimum with | some m => !specMin v m b.exclMin | none => true)
-  && (match b.multipleOf with | some m => specMul v m == .ok | none => true)
+  && optOK (fun m => !specMax v m b.exclMax) b.maximum
+  && optOK (fun m => !specMin v m b.exclMin) b.minimum
+  && optOK (fun m => specMul v m == .ok) b.multipleOf
 
 end VM.Values
